@@ -490,6 +490,19 @@ func (c *Compiler) replaceInstruction(pos int, inst []byte) {
 	}
 }
 
+// globalIndex returns the index of the name of a global symbol in the
+// constants of this compilation. A symbol table may be re-used with other
+// constants than the ones the symbol's index was recorded for.
+func (c *Compiler) globalIndex(symbol *Symbol) int {
+	if i := symbol.Index; i >= 0 && i < len(c.constants) {
+		if name, ok := c.constants[i].(String); ok && string(name) == symbol.Name {
+			return i
+		}
+	}
+	symbol.Index = c.addConstant(String(symbol.Name))
+	return symbol.Index
+}
+
 func (c *Compiler) addConstant(obj Object) (index int) {
 	defer func() {
 		if c.trace != nil {
